@@ -114,6 +114,32 @@ def run(ctx, config='rel-all'):
         else:
             ctx.violation('R3', n, 'no-Drop', '%s has no Drop impl: the remainder it owns would never be dropped' % n)
     check_drain_exhaust(ctx, db)
+    # ---- R3b: the destructor of an owner destroys what it still owns on EVERY path (no size/flag dependent skip)
+    nd = 0
+    for b in db.fn_bodies():
+        m = b['meta']
+        adt = m.get('impl_adt') or ''
+        if b['kind'] != 'assoc_fn' or not (m.get('impl_trait') or '').endswith('ops::drop::Drop') or not any(adt.endswith(x) for x in ('vec::Vec', 'vec::IntoIter', 'vec::Drain', 'vec::Splice', 'boxed::Box')):
+            continue
+        g = db.cfg(b)
+        killers = []
+        for bi, t in db.calls(b):
+            tp = t['callee'].get('path') or ''
+            if tp.endswith('Iterator::for_each') or tp == 'core::ptr::drop_in_place':
+                killers.append(bi)
+        nd += 1
+        fn = arena.short(b['id'])
+        if not killers:
+            ctx.violation('R3', fn, 'destroys-nothing', '%s never destroys the elements it owns' % fn, b.get('span'))
+            continue
+        r = g.reach([0], avoid_blocks=killers)
+        if set(g.returns()) & r:
+            ctx.violation('R3', fn, 'conditional-destroy', '%s has a path to its return that skips the destruction of the elements it still owns (a size- or flag-dependent shortcut leaks / fails to drop them)' % fn, b.get('span'))
+        else:
+            ctx.ok('R3', '%s: the owned remainder is destroyed on every path to the return' % fn, 'must-pass-through over %d destroying call(s)' % len(killers))
+    ctx.floor('R3.destroy', nd, 5, 'destructors of element owners (Vec, IntoIter, Drain, Splice, Box)')
+    from . import drainfilter
+    drainfilter.check(ctx, 'rel-all' if config is None else config, 'R5')
     mu = ps.may_user()
     for b in db.fn_bodies():
         m = b['meta']
